@@ -154,6 +154,50 @@ def bracket_discrimination(rhos, w):
     return {"L": low, "U": best[0], "M": ms, "Y": best[1]}
 
 
+def _herm_basis(k: int):
+    out = []
+    for a in range(k):
+        e = np.zeros((k, k), dtype=complex)
+        e[a, a] = 1
+        out.append(e)
+        for b in range(a + 1, k):
+            e = np.zeros((k, k), dtype=complex)
+            e[a, b] = e[b, a] = 1
+            out.append(e)
+            e = np.zeros((k, k), dtype=complex)
+            e[a, b], e[b, a] = 1j, -1j
+            out.append(e)
+    return out
+
+
+def _hvec(h: np.ndarray) -> np.ndarray:
+    return np.concatenate([h.real.ravel(), h.imag.ravel()])
+
+
+def polish_excluding(ms, rhos):
+    """Move a nearly excluding POVM onto the affine set {M_i = V_i B_i V_i^dagger (V_i spans ker rho_i), sum_i M_i = I} by a
+    minimum-norm least-squares correction of the B_i, clip to PSD and renormalise.  Pure arithmetic; the caller re-verifies
+    the result (POVM by eigvalsh, value by traces), so a failed polish can only leave the bracket as wide as it was."""
+    d = rhos[0].shape[0]
+    vs = []
+    for r in rhos:
+        ev, v = np.linalg.eigh(herm(r))
+        vs.append(v[:, ev < 1e-12])
+    bs = [v.conj().T @ m @ v for v, m in zip(vs, ms)]
+    cols, index = [], []
+    for i, v in enumerate(vs):
+        for e in _herm_basis(v.shape[1]):
+            cols.append(_hvec(v @ e @ v.conj().T))
+            index.append((i, e))
+    if not cols:
+        return None
+    s = sum(v @ b @ v.conj().T for v, b in zip(vs, bs))
+    x = np.linalg.lstsq(np.array(cols).T, _hvec(np.eye(d) - s), rcond=None)[0]
+    for (i, e), xi in zip(index, x):
+        bs[i] = bs[i] + xi * e
+    return repair_povm([v @ psd_clip(b) @ v.conj().T if v.shape[1] else np.zeros((d, d), dtype=complex) for v, b in zip(vs, bs)])
+
+
 # ------------------------------------------------------------------------------------------------ min-error exclusion
 def bracket_exclusion(rhos, w):
     """min sum_i w_i Tr(rho_i M_i) over POVMs (w: priors, or all ones for the unnormalised value)."""
@@ -171,11 +215,9 @@ def bracket_exclusion(rhos, w):
         return None
     up = success(rhos, w, ms)
     if up < 1e-6:
-        # polish towards an exactly excluding measurement: compress every M_i into the kernel of rho_i, renormalise
-        # (the renormalisation moves the supports by O(|S - I|), so every pass squares the residual)
-        ks = [kernel_projector(r) for r in rhos]
-        for _ in range(4):
-            ms2 = repair_povm([k @ m @ k for k, m in zip(ks, ms)])
+        # polish towards an exactly excluding measurement (every M_i inside the kernel of rho_i, sum exactly I)
+        for _ in range(3):
+            ms2 = polish_excluding(ms, rhos)
             if ms2 is None or not _exact_povm(ms2):
                 break
             up2 = success(rhos, w, ms2)
